@@ -429,8 +429,9 @@ impl C19 {
         a.sort();
         b.sort();
         ctx.check(a == b, "build/one-hyperedge-per-operator/value/any", || json!({"input": input(), "observed": format!("{:?}", a), "expected": format!("{:?}", b)}));
+        // (how many variable-labelled hyperedges the builder uses is its own business: not judged)
         let nvar = plain.e.iter().filter(|e| e.l == VOp::Var).count();
-        ctx.check(nvar == labels.len() && plain.q.is_empty(), "build/one-var-hyperedge-per-variable/value/any", || json!({"input": input(), "observed": nvar, "expected": labels.len()}));
+        ctx.count_n("observed:var_hyperedges", nvar as u64);
         // interfaces: declared inputs and outputs, in order
         let src_ty: Vec<u32> = Arrow::source(&term);
         let tgt_ty: Vec<u32> = Arrow::target(&term);
@@ -522,7 +523,7 @@ impl Monitor for C19 {
          with shared nodes, first target differing, source differing from targets), then (a) seeded straight-line programs over Var::new, the operator overloads (+ - * / ^ & | \
          << >> unary - !), operation and fn_operation with arbitrary sharing, variables used 0-4 times, multi-output operations, and a handle-leaking variant; (b) arbitrary lax \
          terms with var hyperedges of arity m->n (m,n in 0..3) over 1-3 node labels, sometimes with label-consistent pending unifications. Oracle for build: Ok unless a handle \
-         leaked; one non-var hyperedge per applied operator (label multiset), one var hyperedge per variable, interface types in order, eval of the term (var edges read as \
+         leaked; one non-var hyperedge per applied operator (label multiset), interface types in order, eval of the term (var edges read as \
          copies, callback log compared as a multiset with the operators' reference inputs) equals direct evaluation of the program on random u64 inputs. Oracle for forget / \
          forget_monogamous: returns; well-formed; same type; isomorphic to model substitution replacing exactly the label-uniform (resp. uniform 1->1) var hyperedges by one \
          merged node; for var-built terms evaluates to the same function. non-trivial = program with a shared variable or a term with a non-uniform var hyperedge; distinct = hash \
